@@ -53,7 +53,7 @@ def run_shard(desc):
 
 def replay(case):
     res = new_result()
-    if case.get("lookup"):
+    if case.get("lookup") or case.get("lookup_sequence"):
         lookup(res)
     else:
         judge(case, res)
@@ -75,6 +75,27 @@ def lookup(res):
             pf.fourier_series(inst)
         except Exception as e:
             add_violation(res, "lookup_by_name", {"lookup": wt}, wt, "%s: %s" % (type(e).__name__, e), "lookup raised", kind="exception:" + type(e).__name__)
+    # every sequence: a lookup of a name that does not exist (refused), then every name again - also after every other name
+    # (a failed or an earlier lookup must not change what a name denotes)
+    for bad in ("square", "", "Rect", "sine", "saw "):
+        for first in WAVES:
+            res["transitions"] += 1
+            bump(res["hits"], "lookup_by_name")
+            case = {"lookup_sequence": [first, bad, "every name"]}
+            try:
+                pf.periodic_function(first)
+                try:
+                    got = pf.periodic_function(bad)
+                    add_violation(res, "lookup_by_name", case, "an exception", repr(got), "lookup of an unknown type name returned a waveform")
+                except Exception:
+                    pass
+                for wt in WAVES:
+                    cls = pf.periodic_function(wt)
+                    if cls.wavetype != wt or cls(period=1.0, amplitude=1.0, phase=0.0, offset=0.0).wavetype != wt:
+                        add_violation(res, "lookup_by_name", dict(case, name=wt), wt, cls.wavetype, "after a refused lookup the type name denotes another waveform")
+                        break
+            except Exception as e:
+                add_violation(res, "lookup_by_name", case, "lookups", "%s: %s" % (type(e).__name__, e), "lookup sequence raised", kind="exception:" + type(e).__name__)
     res["nontrivial"] += 2
     res["fps"].add(1)
     res["fps"].add(2)
